@@ -739,12 +739,13 @@ def run_spectrum_outputs(ctx, keytable, tmp, classes):
             if bname == 'native' and gname != 'uniform':
                 continue
             widths = dy_w if gname == 'dyadic' else None
-            if bname == 'native':
-                binner = NativeBinner()
-            elif bname == 'simple':
-                binner = SimpleBinner(np.sort(grid), widths)      # SimpleBinner expects an ascending grid
-            else:
-                binner = FluxBinner(grid, widths)
+            def mk(bname=bname, grid=grid, widths=widths):
+                if bname == 'native':
+                    return NativeBinner()
+                if bname == 'simple':
+                    return SimpleBinner(np.sort(grid), None if widths is None else np.array(widths))      # SimpleBinner expects an ascending grid
+                return FluxBinner(np.array(grid), None if widths is None else np.array(widths))
+            binner = mk()
             for sname, size in sizes.items():
                 cls = '%s:%s:%s' % (bname, sname, gname)
                 out = binner.generate_spectrum_output(result, output_size=size)
@@ -765,11 +766,12 @@ def run_spectrum_outputs(ctx, keytable, tmp, classes):
                 exp = 10000.0 * w_ / wn_ ** 2
                 ctx.verdict('BinnedWlWidth', g['binned_wlwidth'].shape == exp.shape and np.allclose(g['binned_wlwidth'], exp, rtol=1e-12, atol=0), cls=cls,
                             detail='binned_wlwidth %s, wavenumber widths converted at the bin centre %s' % (g['binned_wlwidth'][:3], exp[:3]), vector=vec)
-                again = binner.bindown(g['native_wngrid'], g['native_spectrum'])[1]
+                # the reference is an independent, freshly built binner on the same bins (never the object that wrote the output)
+                again = mk().bindown(g['native_wngrid'], g['native_spectrum'])[1]
                 ctx.verdict('BinnedSpectrum', np.array_equal(g['binned_spectrum'], again, equal_nan=True), cls=cls,
                             detail='binned_spectrum is not the binner applied to the stored native spectrum', vector=vec)
                 if 'binned_tau' in g and 'native_tau' in g:
-                    ctx.verdict('BinnedTau', np.array_equal(g['binned_tau'], binner.bindown(g['native_wngrid'], g['native_tau'])[1], equal_nan=True), cls=cls,
+                    ctx.verdict('BinnedTau', np.array_equal(g['binned_tau'], mk().bindown(g['native_wngrid'], g['native_tau'])[1], equal_nan=True), cls=cls,
                                 detail='binned_tau is not the binner applied to native_tau', vector=vec)
                 if gname == 'dyadic' and sname == 'heavy':
                     for i in range(len(wn_)):
@@ -780,6 +782,72 @@ def run_spectrum_outputs(ctx, keytable, tmp, classes):
                             ctx.verdict('GridRelationsExact', False, cls='%s:dyadic' % bname, vector=vec,
                                         detail='bin %d: wn=%r w=%r stored wl=%r wlwidth=%r' % (i, wn_[i], w_[i], g['binned_wlgrid'][i], g['binned_wlwidth'][i]))
     return events
+
+
+# ---------------------------------------------------------------------------- histories of ONE long-lived binner
+HIST_CLAUSE = dict(values='BinnedSpectrum', tau='BinnedTau', wlwidth='BinnedWlWidth', native='NativeGrid')
+
+
+def run_binner_histories(ctx, tmp, only=None):
+    """spec/BinnerHistory.tla: TLC's operation sequences (every ordered pair + longer random ones) replayed on ONE real
+    FluxBinner / SimpleBinner / NativeBinner; every output dictionary of the long-lived binner goes through HDF5Output and
+    h5py, and its binned spectrum / optical depths must be the overlap-weighted mean (TLC, exact) of ITS OWN stored native
+    arrays -- whatever the binner produced before; centres, widths and every result equal a freshly built binner's."""
+    import h5py
+    from taurex.binning import FluxBinner, SimpleBinner, NativeBinner
+    from taurex.output.hdf5 import HDF5Output
+    from .. import fx_binnerhist as BH
+    q = ctx.tier == 'quick'
+    if only is None:
+        BH.check_design(ctx, thorough=not q)
+    A, walks = BH.generate(ctx, thorough=not q)
+    path = os.path.join(tmp, 'hist.h5')
+
+    def store(d):
+        with HDF5Output(path) as o:
+            o.store_dictionary(d, group_name='Spectra')
+        with h5py.File(path, 'r') as f:
+            return {k: f['Spectra'][k][...] for k in f['Spectra']}
+    makers = dict(flux=lambda: FluxBinner(np.array(A.tc), np.array(A.tw)),            # handed over unsorted: the constructor sorts
+                  simple=lambda: SimpleBinner(np.array(A.c), np.array(A.w)),          # SimpleBinner expects an ascending grid
+                  native=lambda: NativeBinner())
+    if only is not None:
+        todo = [(v['kind'], [dict(ops=v['ops'], src='replay', flux=[], simple=[])], True) for v in only]
+    else:
+        longer = [w for w in walks if w['src'] == 'walk']
+        # the flux binner: every sequence, every output through the file; the stateless binners: every sequence, the longer ones through the file
+        todo = [('flux', walks, True), ('simple', [w for w in walks if w['src'] == 'pair'], False), ('simple', longer, True),
+                ('native', [w for w in walks if w['src'] == 'pair'], False), ('native', longer, True)]
+    n = nstored = 0
+    for kind, ws, through_file in todo:
+        for w, problems in BH.replay(A, kind, makers[kind], ws, store=store if through_file else None):
+            ops = w['ops']
+            n += 1
+            vec = dict(binner_history=True, kind=kind, ops=ops, unit=A.U)
+            nstored += through_file * sum(o['k'] == 'output' for o in ops)
+            clauses = {'HistoryIndependent'}
+            if any(o['k'] == 'output' for o in ops):
+                clauses |= {'BinnedSpectrum', 'NativeGrid'} | ({'BinnedWlWidth'} if kind != 'native' else set())
+                if kind != 'native' and any(o['k'] == 'output' and o['size'] != 'lighter' for o in ops):
+                    clauses.add('BinnedTau')
+            by = {}
+            for j, tag, detail in problems:
+                c = HIST_CLAUSE.get(tag, 'HistoryIndependent') if ops[j]['k'] == 'output' else 'HistoryIndependent'
+                by.setdefault(c, (j, tag, detail))
+            for c in sorted(clauses | set(by)):
+                if c in by:
+                    j, tag, detail = by[c]
+                    ctx.verdict(c, False, cls=BH.failure_class(A, kind, ops, j), vector=vec,
+                                detail='one %s binner, calls %s: call %d (%s) -- %s' % (kind, BH.trail(ops), j + 1, tag, detail))
+                else:
+                    ctx.verdict(c, True, cls='history:' + kind, vector=vec)
+    if only is None:
+        ncan = BH.canary(A, walks)
+        ctx.traces += n
+        ctx.note('binner histories: %d operation sequences (all %d ordered pairs of %d operations + longer ones) replayed on one FluxBinner / '
+                 'SimpleBinner / NativeBinner each, %d output dictionaries through HDF5; canary: %d sequences on the harness\'s own memo / in-place mutants'
+                 % (n, len([w for w in walks if w['src'] == 'pair']), len(A.table['flux']), nstored, ncan))
+        ctx.add_sample(dict(binner_history=walks[-1]['ops'], exposes=dict(flux=walks[-1]['flux'], simple=walks[-1]['simple'])))
 
 
 # ---------------------------------------------------------------------------- output size at every place it is consumed
@@ -1144,6 +1212,8 @@ def run(ctx):
         opacities()
         grid_events = run_spectrum_outputs(ctx, keytable, tmp, classes)
         lap('spectrum outputs')
+        run_binner_histories(ctx, tmp)
+        lap('binner histories')
         tau_events, prog_bib = run_size_callers(ctx, tmp, classes, rng, tau_rows)
         lap('size callers')
         opacities()
@@ -1275,6 +1345,8 @@ def replay(ctx, violations):
                 run_model_roundtrips(ctx, [combo_case(v)], tmp, classes)
             elif 'sweep' in v:
                 run_model_roundtrips(ctx, [c for c in sweep_cases(table, (tuple(v['in_model']) if v.get('in_model') else None,)) if c['vec'].get('variant') == v['variant'] and c['vec']['sweep'] == v['sweep']], tmp, classes)
+            elif v.get('binner_history'):
+                run_binner_histories(ctx, tmp, only=[v])
             elif v.get('tau') and 'tau' not in done:
                 done.add('tau')
                 ev, bib = run_size_callers(ctx, tmp, classes, rng, tables.tagged('TAU')[0])
